@@ -145,7 +145,7 @@ func (s *scopedWalker) walkFn(path string, d fs.DirEntry, err error) error {
 	}
 	// st.logger.Printf("flags for %q: %v", name, flags)
 
-	if s.excl.matches(name) {
+	if s.excl.matches(name, info.IsDir()) {
 		if info.IsDir() {
 			return filepath.SkipDir // leave out the whole subtree
 		}
